@@ -11,14 +11,32 @@ def digestVerdict (kind : String) (digests : Sexp) : Option Verdict := do
   let holds := eq && !degenerate
   pure { agree := true, holds,
          cls := if holds then "-" else if degenerate then "degenerate"
-                else if kind == "user-rng" then "rng-replaced" else "digest-differs",
+                else if kind == "user-rng" || kind == "adv-rng" then "rng-replaced" else "digest-differs",
          model := want }
 
 def c08 (input implOut : Sexp) : Option Verdict := do
   match input with
   | .list (.atom "children" :: _) =>
+    -- K: child seeds are the parent's successive words (model shape); O: only what the property
+    -- says — deriving twice gives the same children, parents end at the same position
     let (model, ok) ← predictChildren implOut
-    pure { agree := ok, holds := ok, cls := if ok then "-" else "child-seed", model }
+    let det := childrenDeterministic implOut
+    pure { agree := ok, holds := det, cls := if det then (if ok then "-" else "child-seed") else "child-nondeterministic", model }
+  | .list (.atom "stream" :: _) =>
+    let (model, ok, det) ← predictStream input implOut
+    pure { agree := ok, holds := det, cls := if !det then "stream-nondeterministic" else if ok then "-" else "seed-or-backend", model }
+  | .list (.atom "seedmap" :: _) =>
+    let (model, ok, noCollision) ← predictSeedmap input implOut
+    pure { agree := ok, holds := noCollision, cls := if !noCollision then "seed-collision" else if ok then "-" else "seed-remapped", model }
+  | .list (.atom "exp-user" :: _) =>
+    match implOut with
+    | .list [.atom "exp-user", gens, digests] =>
+      let (genModel, gensOk) ← predictExpUser input gens
+      let v ← digestVerdict "exp" digests
+      pure { agree := gensOk, holds := gensOk && v.holds,
+             cls := if !gensOk then "rng-replaced" else v.cls,
+             model := .list [.atom "exp-user", genModel, v.model] }
+    | _ => none
   | .list [.atom "pairs", _, n] =>
     let model := Sexp.list [.atom "pairs", n, .list [.atom "collisions", .atom "0"]]
     let ok := Sexp.beq model implOut
